@@ -50,8 +50,20 @@ LCA(T, a, b)  == LET C == ChainOf(T.par, a) \cap ChainOf(T.par, b) IN CHOOSE c \
 
 (* ------------------------------------------------------------------------ *)
 (* atoms and layout                                                          *)
-Tok(k)  == <<[o |-> k, w |-> 1]>>
-Zero(k) == <<[o |-> k, w |-> 0]>>
+Tok(k)  == <<[o |-> k, w |-> 1, x |-> 0]>>
+Zero(k) == <<[o |-> k, w |-> 0, x |-> 0]>>
+
+(* Derived extent.  A child c may be WRAPPED: T.wrap[c] = "pars" puts an own   *)
+(* pair of grouping parentheses around it, "trail" a trailing comment after    *)
+(* it.  The wrapping atoms are text of the PARENT (a gap next to them is       *)
+(* trivia of the parent, the span of c that a parser reports excludes them),   *)
+(* but they belong to the derived extent of c: what pfst answers for           *)
+(* `c.pars()` / `c.bloc` and caches per node.  x = the node whose extent the   *)
+(* atom closes/opens (0 for ordinary atoms).                                    *)
+WrapOf(T, c)  == IF "wrap" \in DOMAIN T THEN T.wrap[c] ELSE "none"
+WrapAtom(k, c) == <<[o |-> k, w |-> 1, x |-> c]>>
+WrapOpen(T, k, c)  == IF WrapOf(T, c) = "pars" THEN WrapAtom(k, c) ELSE <<>>
+WrapClose(T, k, c) == IF WrapOf(T, c) \in {"pars", "trail"} THEN WrapAtom(k, c) ELSE <<>>
 
 RECURSIVE AtomsOf(_, _), JoinKids(_, _, _, _)
 AtomsOf(T, k) ==
@@ -64,7 +76,7 @@ AtomsOf(T, k) ==
                ELSE JoinKids(T, k, ks, 1)
   IN open \o inner \o close
 JoinKids(T, k, ks, i) ==
-  AtomsOf(T, ks[i]) \o (IF i < Len(ks) THEN (IF T.sep[k] THEN Tok(k) ELSE <<>>) \o JoinKids(T, k, ks, i + 1) ELSE <<>>)
+  WrapOpen(T, k, ks[i]) \o AtomsOf(T, ks[i]) \o WrapClose(T, k, ks[i]) \o (IF i < Len(ks) THEN (IF T.sep[k] THEN Tok(k) ELSE <<>>) \o JoinKids(T, k, ks, i + 1) ELSE <<>>)
 
 Adv(pt, gap) == IF Len(gap) = 1 THEN <<pt[1], pt[2] + gap[1]>> ELSE <<pt[1] + Len(gap) - 1, gap[Len(gap)]>>
 
@@ -87,13 +99,29 @@ MkInst(T) ==
       A    |-> A,
       kids |-> [k \in 1..n |-> KidsSeq(T, k)],
       lo   |-> [k \in 1..n |-> SetMin({i \in 1..Len(A) : A[i].o \in Desc(T, k)})],
-      hi   |-> [k \in 1..n |-> SetMax({i \in 1..Len(A) : A[i].o \in Desc(T, k)})]]
+      hi   |-> [k \in 1..n |-> SetMax({i \in 1..Len(A) : A[i].o \in Desc(T, k)})],
+      elo  |-> [k \in 1..n |-> SetMin({i \in 1..Len(A) : A[i].o \in Desc(T, k) \/ A[i].x = k})],
+      ehi  |-> [k \in 1..n |-> SetMax({i \in 1..Len(A) : A[i].o \in Desc(T, k) \/ A[i].x = k})]]
 
 (* from-scratch scan: the span of every node in the text (atoms, G)          *)
 Scan(I, G) ==
   LET A == I.A
       S == StartsUpTo(A, G, Len(A))
   IN [k \in 1..I.n |-> <<S[I.lo[k]][1], S[I.lo[k]][2], S[I.hi[k]][1], S[I.hi[k]][2] + A[I.hi[k]].w>>]
+
+(* derived extents (span + own grouping parentheses / trailing comment)       *)
+ExtScan(I, G) ==
+  LET A == I.A
+      S == StartsUpTo(A, G, Len(A))
+  IN [k \in 1..I.n |-> <<S[I.elo[k]][1], S[I.elo[k]][2], S[I.ehi[k]][1], S[I.ehi[k]][2] + A[I.ehi[k]].w>>]
+
+(* which nodes have their derived extent cached when the edit is made          *)
+WarmSet(I, mode, slf) ==
+  CASE mode = "none" -> {}
+    [] mode = "all"  -> 1..I.n
+    [] mode = "anc"  -> ChainOf(I.par, slf)                       \* self and its ancestors
+    [] mode = "sib"  -> {k \in 1..I.n : I.par[k] = slf}           \* the children of self (around the spot)
+    [] OTHER -> {}
 
 OnGrid(P, maxLines, maxCols) == \A k \in DOMAIN P : P[k][3] <= maxLines /\ P[k][4] <= maxCols
 
@@ -177,6 +205,7 @@ Result(I, gaps, gi, p, q, i) ==
       out  == PutSrcOffset(I, pos, slf, Q, DLn(P, Q, nl), DCol(P, Q, nl, last))
   IN [g |-> gi, p |-> p, q |-> q, ins |-> i, self |-> slf, P |-> P, Q |-> Q, nl |-> nl, last |-> last,
       pos0 |-> pos, pos1 |-> out.pos, vis |-> out.vis,
+      ext0 |-> ExtScan(I, gaps), extWant |-> ExtScan(I, [gaps EXCEPT ![gi] = NewGap(gaps[gi], p, q, i)]),
       want |-> Scan(I, [gaps EXCEPT ![gi] = NewGap(gaps[gi], p, q, i)])]
 
 =============================================================================
